@@ -1,4 +1,4 @@
-import NbioVerif.Model.Rfc6455
+import NbioVerif.Lemmas.RfcM
 import NbioVerif.Lemmas.C15
 /-! Decoder agreement: the model's `nextFrame` (header decode, size checks, validFrame) is the RFC transcription's
     `decode1` followed by the model's checks (`judge`), on every byte string. -/
@@ -45,7 +45,7 @@ theorem sizeCheck_neg (g : Cfg) (s : S) (hw : Within g s) (x0 x1 : UInt8) :
 /-- a complete header: nextFrame = judge of the specification's frame -/
 theorem nextFrame_mk (g : Cfg) (s : S) (x0 x1 : UInt8) (v hl : Nat)
     (hdec : decodeHdr s.cache = some (.ok (mkHdr x0 x1 (Int.ofNat v) hl))) :
-    nextFrame g s = judge g s (Rfc.mkD1 s.cache x0 x1 v hl false) := by
+    nextFrame g s = judge g s (RfcM.mkD1 s.cache x0 x1 v hl false) := by
   unfold nextFrame
   rw [hdec]
   simp only
@@ -53,7 +53,7 @@ theorem nextFrame_mk (g : Cfg) (s : S) (x0 x1 : UInt8) (v hl : Nat)
   have hhl : (mkHdr x0 x1 (Int.ofNat v) hl).headLen = if x1.toNat ≥ 128 then hl + 4 else hl := by
     simp [mkHdr, bit7]
   have hbl : (mkHdr x0 x1 (Int.ofNat v) hl).bodyLen = (v : Int) := rfl
-  unfold Rfc.mkD1 judge
+  unfold RfcM.mkD1 judge
   simp only [Bool.false_eq_true, if_false]
   by_cases hp : s.cache.length < (if x1.toNat ≥ 128 then hl + 4 else hl) + v
   · -- partial
@@ -99,54 +99,54 @@ theorem nextFrame_negHdr (g : Cfg) (s : S) (hw : Within g s) (x0 x1 : UInt8)
   rw [if_neg this]
 
 /-- Decoder agreement (all byte strings): `nextFrame` = the RFC decoder followed by the model's checks -/
-theorem nextFrame_eq_judge (g : Cfg) (s : S) (hw : Within g s) : nextFrame g s = judge g s (Rfc.decode1 s.cache) := by
+theorem nextFrame_eq_judge (g : Cfg) (s : S) (hw : Within g s) : nextFrame g s = judge g s (RfcM.decode1 s.cache) := by
   match hc : s.cache with
-  | [] => simp [nextFrame, decodeHdr, hc, Rfc.decode1, judge]
-  | [x] => simp [nextFrame, decodeHdr, hc, Rfc.decode1, judge]
+  | [] => simp [nextFrame, decodeHdr, hc, RfcM.decode1, judge]
+  | [x] => simp [nextFrame, decodeHdr, hc, RfcM.decode1, judge]
   | x0 :: x1 :: rest =>
     rw [← hc]
     by_cases h126 : x1.toNat % 128 = 126
     · by_cases hr : rest.length ≥ 2
       · have hdec : decodeHdr s.cache = some (.ok (mkHdr x0 x1 (Int.ofNat (beDec (rest.take 2))) 4)) := by
           rw [hc]; simp [decodeHdr, h126, hr]
-        have hd1 : Rfc.decode1 s.cache = Rfc.mkD1 s.cache x0 x1 (beDec (rest.take 2)) 4 false := by
+        have hd1 : RfcM.decode1 s.cache = RfcM.mkD1 s.cache x0 x1 (beDec (rest.take 2)) 4 false := by
           have : ¬ rest.length < 2 := by omega
-          rw [hc]; simp [Rfc.decode1, h126, this]
+          rw [hc]; simp [RfcM.decode1, h126, this]
         rw [hd1]; exact nextFrame_mk g s x0 x1 _ 4 hdec
       · have hdec : decodeHdr s.cache = some (.ok (mkHdr x0 x1 (-1) 2)) := by
           rw [hc]; simp [decodeHdr, h126, hr]
-        have hd1 : Rfc.decode1 s.cache = .need := by
+        have hd1 : RfcM.decode1 s.cache = .need := by
           have : rest.length < 2 := by omega
-          rw [hc]; simp [Rfc.decode1, h126, this]
+          rw [hc]; simp [RfcM.decode1, h126, this]
         rw [hd1, nextFrame_negHdr g s hw x0 x1 hdec]; rfl
     · by_cases h127 : x1.toNat % 128 = 127
       · by_cases hr : rest.length ≥ 8
         · by_cases htop : beDec (rest.take 8) ≥ 2 ^ 63
           · have hdec : decodeHdr s.cache = some (.error .invalidFragment) := by
               rw [hc]; simp [decodeHdr, h127, hr, htop]
-            have hd1 : Rfc.decode1 s.cache = Rfc.mkD1 s.cache x0 x1 (beDec (rest.take 8)) 10 true := by
+            have hd1 : RfcM.decode1 s.cache = RfcM.mkD1 s.cache x0 x1 (beDec (rest.take 8)) 10 true := by
               have : ¬ rest.length < 8 := by omega
-              rw [hc]; simp [Rfc.decode1, h127, this, htop]
+              rw [hc]; simp [RfcM.decode1, h127, this, htop]
             rw [hd1]
             unfold nextFrame
             rw [hdec]
-            simp [Rfc.mkD1, judge]
+            simp [RfcM.mkD1, judge]
           · have hdec : decodeHdr s.cache = some (.ok (mkHdr x0 x1 (Int.ofNat (beDec (rest.take 8))) 10)) := by
               rw [hc]; simp [decodeHdr, h127, hr, htop]
-            have hd1 : Rfc.decode1 s.cache = Rfc.mkD1 s.cache x0 x1 (beDec (rest.take 8)) 10 false := by
+            have hd1 : RfcM.decode1 s.cache = RfcM.mkD1 s.cache x0 x1 (beDec (rest.take 8)) 10 false := by
               have : ¬ rest.length < 8 := by omega
-              rw [hc]; simp [Rfc.decode1, h127, this, htop]
+              rw [hc]; simp [RfcM.decode1, h127, this, htop]
             rw [hd1]; exact nextFrame_mk g s x0 x1 _ 10 hdec
         · have hdec : decodeHdr s.cache = some (.ok (mkHdr x0 x1 (-1) 2)) := by
             rw [hc]; simp [decodeHdr, h127, hr]
-          have hd1 : Rfc.decode1 s.cache = .need := by
+          have hd1 : RfcM.decode1 s.cache = .need := by
             have : rest.length < 8 := by omega
-            rw [hc]; simp [Rfc.decode1, h127, this]
+            rw [hc]; simp [RfcM.decode1, h127, this]
           rw [hd1, nextFrame_negHdr g s hw x0 x1 hdec]; rfl
       · have hdec : decodeHdr s.cache = some (.ok (mkHdr x0 x1 (Int.ofNat (x1.toNat % 128)) 2)) := by
           rw [hc]; simp [decodeHdr, h126, h127]
-        have hd1 : Rfc.decode1 s.cache = Rfc.mkD1 s.cache x0 x1 (x1.toNat % 128) 2 false := by
-          rw [hc]; simp [Rfc.decode1, h126, h127]
+        have hd1 : RfcM.decode1 s.cache = RfcM.mkD1 s.cache x0 x1 (x1.toNat % 128) 2 false := by
+          rw [hc]; simp [RfcM.decode1, h126, h127]
         rw [hd1]; exact nextFrame_mk g s x0 x1 _ 2 hdec
 
 end Ws
